@@ -13,6 +13,7 @@ Offsets staying within the text in general is a value property: NOT decided.
 R30.4 unsigned-subtraction inventory on the same request paths (guard-discharged or reviewed, see subguard.py).
 R30.5 char-boundary inventory: str/String operations that take a byte offset (split_at, range index, insert, drain(range) ...)
       on the request paths are exactly the reviewed table; the checked forms (get, split_at_checked) are not listed.
+R30.6 = C29 R29.5: the parse results (whose ranges hover slices the text with) always belong to the current text.
 """
 import json
 import os
@@ -106,6 +107,9 @@ def check(ctx):
                    nontrivial=(e["class"] == "reviewed-safe"))
     ctx.counters.update({"sites_" + k.replace("-", "_"): v for k, v in classes.items()})
     ctx.require_floor("R30.1", "reachable_functions", len(seen), 100)
+    # R30.6 = C29 R29.5: ranges used by hover / goto-definition belong to the current text
+    from . import c29
+    c29.parsed_data_is_current(ctx, ctx.facts(), rule="R30.6")
     # R30.5 char-boundary sensitive string operations on the request paths: reviewed table
     nb = 0
     found_b = {}
